@@ -25,6 +25,7 @@ func RuleCFileWrite(c *core.Ctx) {
 	const rule = "C-filewrite"
 	p := c.P
 	nAtomic := 0
+	atomicFns := map[*ssa.Function]bool{}
 	for _, fn := range p.SrcFuncs() {
 		pkg := core.PkgPathOf(fn)
 		if strings.HasPrefix(pkg, core.Module+"/scripts") || strings.Contains(pkg, "/cmdtest") {
@@ -42,6 +43,7 @@ func RuleCFileWrite(c *core.Ctx) {
 			name := callee.Pkg.Pkg.Path() + "." + callee.Name()
 			if name == pkgAtomic+".WriteFile" {
 				nAtomic++
+				atomicFns[fn] = true
 				return
 			}
 			if !fileMutators[name] {
@@ -54,16 +56,34 @@ func RuleCFileWrite(c *core.Ctx) {
 					return
 				}
 			}
-			// the cpuprofile exception: the path is the value of a string field named cpuprofile
+			// the profile exception
 			if name == "os.Create" {
 				isProfile := false
-				for v := range originSet(p, call.Common().Args[0], 0) {
-					if fa, ok := v.(*ssa.FieldAddr); ok && core.FieldOf(fa).Name() == "cpuprofile" {
-						isProfile = true
+				// what is written to the file is a CPU profile: the created file is
+				// handed to runtime/pprof.StartCPUProfile (and to nothing else that writes)
+				if val, ok := ins.(ssa.Value); ok && val.Referrers() != nil {
+					for _, r := range *val.Referrers() {
+						ex, ok := r.(*ssa.Extract)
+						if !ok || ex.Index != 0 || ex.Referrers() == nil {
+							continue
+						}
+						for _, u := range *ex.Referrers() {
+							mi, ok := u.(*ssa.MakeInterface)
+							if !ok || mi.Referrers() == nil {
+								continue
+							}
+							for _, uu := range *mi.Referrers() {
+								if cl, ok := uu.(ssa.CallInstruction); ok {
+									if callee := cl.Common().StaticCallee(); callee != nil && callee.Pkg != nil && callee.Pkg.Pkg.Path() == "runtime/pprof" && callee.Name() == "StartCPUProfile" {
+										isProfile = true
+									}
+								}
+							}
+						}
 					}
 				}
 				if isProfile {
-					c.Ob(rule, key+"(cpuprofile)", ins.Pos(), core.FuncName(fn), core.Discharged, "profile output to the path of the --cpuprofile flag, not a journal file")
+					c.Ob(rule, key+"(cpuprofile)", ins.Pos(), core.FuncName(fn), core.Discharged, "the created file receives a CPU profile (runtime/pprof.StartCPUProfile), not a journal")
 					return
 				}
 			}
@@ -71,12 +91,34 @@ func RuleCFileWrite(c *core.Ctx) {
 				name+" creates, truncates or replaces a file in place: a failure (or crash) part-way leaves a truncated or mixed file; journal files must be replaced through atomic.WriteFile only")
 		})
 	}
-	if nAtomic < 3 {
-		c.Ob(rule, "atomic.WriteFile sites", 0, "", core.Violated, fmt.Sprintf("expected the three in-place writers (format, infer --inplace, fetch) to use atomic.WriteFile, found %d call sites", nAtomic))
-	} else {
-		c.Ob(rule, "atomic.WriteFile sites", 0, "", core.Discharged, fmt.Sprintf("%d call sites of atomic.WriteFile", nAtomic))
+	// the three commands that rewrite files in place reach an atomic.WriteFile
+	// site (their own, or a helper they share)
+	var missing []string
+	for _, cmd := range core.Commands(c) {
+		switch cmd.Use {
+		case "format", "infer", "fetch":
+		default:
+			continue
+		}
+		if cmd.Run == nil {
+			continue
+		}
+		reaches := false
+		for fn := range p.ReachLexical(cmd.Run) {
+			if atomicFns[fn] {
+				reaches = true
+			}
+		}
+		if !reaches {
+			missing = append(missing, cmd.Use)
+		}
 	}
-	c.Floor(rule, 3)
+	if nAtomic == 0 || len(missing) > 0 {
+		c.Ob(rule, "atomic.WriteFile sites", 0, "", core.Violated, fmt.Sprintf("the in-place writers (format, infer --inplace, fetch) must replace files through atomic.WriteFile; %d call sites found, not reached from: %s", nAtomic, strings.Join(missing, ", ")))
+	} else {
+		c.Ob(rule, "atomic.WriteFile sites", 0, "", core.Discharged, fmt.Sprintf("%d call sites of atomic.WriteFile, reached from format, infer and fetch", nAtomic))
+	}
+	c.Floor(rule, 2)
 }
 
 // RuleDAtomic — caller side: the reader handed to atomic.WriteFile is a local
@@ -192,6 +234,55 @@ func RuleDAtomic(c *core.Ctx) {
 					problems = append(problems, "the file is replaced although "+calleeText(pc)+" (which reads the same path) may have failed: a file that does not parse would be overwritten")
 				}
 			})
+			// the path is a parameter of a helper: the parse happens in the callers, whose
+			// call of the helper must be dominated by the success of every call that
+			// reads the same path
+			if prm := paramRoot(path); prm != nil && prm.Parent() == fn {
+				idx := paramIndex(prm)
+				for _, caller := range p.SrcFuncs() {
+					if !p.InModule(caller) {
+						continue
+					}
+					core.EachInstr(caller, func(i2 ssa.Instruction) {
+						hc, ok := i2.(*ssa.Call)
+						if !ok || hc.Call.StaticCallee() != fn || idx >= len(hc.Call.Args) {
+							return
+						}
+						cpath := hc.Call.Args[idx]
+						core.EachInstr(caller, func(i3 ssa.Instruction) {
+							pc, ok := i3.(*ssa.Call)
+							if !ok || pc == hc {
+								return
+							}
+							callee := pc.Call.StaticCallee()
+							if callee == nil || !p.InModule(callee) {
+								return
+							}
+							takesPath := false
+							for _, a := range pc.Call.Args {
+								if p.SameExpr(a, cpath) || sameDeref(p, a, cpath) {
+									takesPath = true
+								}
+							}
+							errs := errValues(pc)
+							if !takesPath || len(errs) == 0 {
+								return
+							}
+							okParse := false
+							for _, e := range errs {
+								for _, sb := range core.ErrSuccessBlocks(e) {
+									if sb == hc.Block() || sb.Dominates(hc.Block()) {
+										okParse = true
+									}
+								}
+							}
+							if !okParse {
+								problems = append(problems, "in "+core.FuncName(caller)+" the file is replaced although "+calleeText(pc)+" (which reads the same path) may have failed: a file that does not parse would be overwritten")
+							}
+						})
+					})
+				}
+			}
 			if len(problems) == 0 {
 				c.Ob(rule, key, call.Pos(), core.FuncName(fn), core.Discharged, "buffer fully rendered and target parsed successfully on every path to the replacement")
 			} else {
@@ -304,7 +395,7 @@ func RuleDAtomic(c *core.Ctx) {
 	} else {
 		c.Ob(rule, key, write.Pos(), core.FuncName(write), core.Violated, strings.Join(uniq(problems), "; "))
 	}
-	c.Floor(rule, 4)
+	c.Floor(rule, 3)
 }
 
 // sameDeref: a is `*x` and b is `*x` for equal x (format passes *target).
@@ -330,6 +421,7 @@ func RuleDEachFile(c *core.Ctx) {
 	// the per-file function: the one that calls atomic.WriteFile, reachable from format
 	reach := p.ReachLexical(entries[0])
 	var perFile *ssa.Function
+	perFiles := map[*ssa.Function]bool{} // the writer and the functions that call it (the per-file chain)
 	for fn := range reach {
 		if !p.InModule(fn) {
 			continue
@@ -339,6 +431,13 @@ func RuleDEachFile(c *core.Ctx) {
 				perFile = fn
 			}
 		})
+	}
+	if perFile != nil {
+		for fn := range reach {
+			if p.InModule(fn) && fn != entries[0] && core.PkgPathOf(fn) == core.PkgPathOf(perFile) && reachesFunc(p, fn, perFile, 0) {
+				perFiles[fn] = true
+			}
+		}
 	}
 	if perFile == nil {
 		c.Anchor(rule, "the per-file function of format (caller of atomic.WriteFile)")
@@ -356,7 +455,7 @@ func RuleDEachFile(c *core.Ctx) {
 				return
 			}
 			// direct call inside a loop
-			if call.Call.StaticCallee() == perFile {
+			if perFiles[call.Call.StaticCallee()] && !perFiles[fn] {
 				key := core.FuncName(fn) + ":files formatted independently"
 				inLoop := false
 				for _, body := range loopsOf(fn) {
@@ -384,7 +483,7 @@ func RuleDEachFile(c *core.Ctx) {
 				return
 			}
 			for _, a := range call.Call.Args {
-				if core.FuncValue(a) == perFile {
+				if perFiles[core.FuncValue(a)] {
 					callee := call.Call.StaticCallee()
 					key := core.FuncName(fn) + ":files formatted independently"
 					found = true
